@@ -688,6 +688,53 @@ def inplace_problems(make_obj, tag):
     return []
 
 
+_ALT_NSH = []
+
+
+def alt_nsh():
+    """A second NamespaceHelper: the same namespaces under other prefixes (an application may write its documents that way)."""
+    if not _ALT_NSH:
+        import enum
+        from sdc11073 import namespaces as ns
+        members = {m.name: ns.PrefixNamespace((m.value.prefix if m.value.prefix in ('xsi', 'xml', 'xsd') else 'p' + m.value.prefix), m.value.namespace,
+                                              m.value.schema_location_url, m.value.local_schema_file) for m in ns.PrefixesEnum}
+        alt_enum = enum.Enum('AltPrefixes', members, type=ns.PrefixNamespace)
+        _ALT_NSH.append(ns.NamespaceHelper(alt_enum))
+    return _ALT_NSH[0]
+
+
+def other_prefixes_problems(cls, make_obj, tag, validator):
+    """The value written once with the default prefixes and then with other prefixes for the same namespaces: the second
+    document is schema-valid as well and parses to the same value (no prefix may be remembered from the first document)."""
+    obj = make_obj()
+    nsh2 = alt_nsh()
+    try:
+        if write(obj, tag) is None:
+            return []
+    except Exception:  # noqa: BLE001   the plain write fails already: judged (and reported) there
+        return []
+    try:
+        node2 = obj.mk_node(tag, nsh2) if hasattr(obj, 'mk_node') else obj.as_etree_node(tag, nsh2.ns_map)
+    except Exception as ex:  # noqa: BLE001
+        return [('write-with-other-prefixes-raises', repr(ex)[:200])]
+    try:
+        doc = etree.fromstring(etree.tostring(node2))
+    except etree.XMLSyntaxError as ex:
+        return [('document-with-other-prefixes-not-well-formed', str(ex)[:200])]
+    problems = []
+    if validator is not None and not validator.validate(doc):
+        msg = '; '.join(e.message for e in list(validator.error_log)[:2])
+        problems.append(('schema-invalid-with-other-prefixes', msg[:300]))
+    try:
+        back = reflect.from_node(cls, doc, obj)
+        a, b = norm(expected_canon(obj)), norm(canon.canon_obj(back))
+        if a != b:
+            problems.append(('round-trip-differs-with-other-prefixes', _canon_diff(a, b)))
+    except Exception as ex:  # noqa: BLE001
+        problems.append(('parse-raises-with-other-prefixes', f'{type(ex).__name__}: {str(ex)[:200]}'))
+    return problems
+
+
 def list_whitespace_problems(cls, make_obj, tag):
     """xs:list values may be separated by any white space (blank, tab, line break, several of them): the same XML with the
     separators of its list-typed members re-spelled must parse to the same value."""
@@ -781,6 +828,8 @@ def _class_job(acc, arg):
             tag = etree.QName(target[1], target[2]) if target is not None and target[0] == 'element' else reflect.TAG
             problems = problems + inplace_problems(make_obj, tag)
             problems = problems + list_whitespace_problems(cls, make_obj, tag)
+            vv = schema.validator() if target is not None and target[0] == 'element' else None
+            problems = problems + other_prefixes_problems(cls, make_obj, tag, vv)
         acc.evals()
         acc.trace()
         acc.transition()
